@@ -168,23 +168,33 @@ def run_unit(unit, repo=None, rlimit=None, extra_args=()):
         if own:
             mm = re.search(r'(\w+)(?:<[^>]*>)?\s*$', own)
             ty = mm.group(1) if mm else None
-        expected['%s::%s%s' % (unit, (ty + '::') if ty else '', m['vname'])] = m
+        expected.setdefault('%s::%s%s' % (unit, (ty + '::') if ty else '', m['vname']), []).append(m)
     seen = set()
     try:
         for mod in out['times-ms']['smt']['smt-run-module-times']:
             for f in mod.get('function-breakdown', []):
-                m = expected.get(f['function'])
-                if m is None:
+                ms = expected.get(f['function'])
+                if not ms:
                     continue
-                seen.add(m['name'])
-                r = res.fn_results[m['name']]
-                r['time_ms'] = f.get('time'); r['rlimit'] = f.get('rlimit')
-                r['verus_name'] = f['function']
-                if not f.get('success', True) and r['success'] and not r['undecided']:
-                    r['undecided'] = True
-                    r['errors'].append(dict(message='verus reports failure without attributable diagnostic', rendered='', where=[]))
+                for m in ms:      # several trait impls (From<A>, From<B>) share one Verus name
+                    seen.add(m['name'])
+                    r = res.fn_results[m['name']]
+                    if len(ms) == 1:
+                        r['time_ms'] = f.get('time'); r['rlimit'] = f.get('rlimit')
+                    r['verus_name'] = f['function']
+                    if not f.get('success', True) and r['success'] and not r['undecided'] and \
+                            not any((not res.fn_results[x['name']]['success']) for x in ms):
+                        r['undecided'] = True
+                        r['errors'].append(dict(message='verus reports failure without attributable diagnostic', rendered='', where=[]))
     except (KeyError, TypeError):
         pass
+    # a function whose obligations are trivial gets no SMT query of its own; it is still listed in func-details
+    details = set((out.get('func-details') or {}).keys())
+    for name_, ms in expected.items():
+        for m in ms:
+            if m['name'] not in seen and name_ in details:
+                seen.add(m['name'])
+                res.fn_results[m['name']]['trivial'] = True
     res.unseen = [k for k in res.fn_results if k not in seen]
     if res.other_errors:
         # a lemma or a preamble item failed: machinery problem, never a property violation
